@@ -43,6 +43,22 @@ def build(env, name):
         g = env.arr("g", (3,), "pos", hi="8") if name[6] == "a" else env.par("g", "pos", hi="8")
         kw = {"gamma_bounds": "fixed"} if name.endswith("x") else {}
         return K.DiffPolyKernel(gamma=g, order=order, factorial=fact, **kw), 3
+    if name.endswith("_iso"):
+        # isotropic (scalar) length scale: the theta gradient must sum the contributions of all feature columns
+        base = name[:-4]
+        ell = env.par("l", "pos", lo="1/8", hi="8")
+        if base == "ARBF2":
+            return K.DiffARBF(order=2, length_scale=ell, scale=env.arr("s", (3,), "pos", hi="8")), 3
+        if base == "ARBFV2_2":
+            return K.DiffARBFV2(order=2, length_scale=ell, scale=env.arr("s", (3,), "pos", hi="8")), 3
+        if base == "AddRQ_2":
+            return K.DiffAddRQ(order=2, alpha=env.const(Fraction(3, 2)), length_scale=ell, scale=env.arr("s", (3,), "pos", hi="8")), 3
+        if base == "AddLLRBF_2":
+            return K.DiffAddLLRBF(order=2, alpha=env.par("alpha", "pos", lo="1/2", hi="8"), length_scale=ell, scale=env.arr("s", (3,), "pos", hi="8")), 3
+        if base == "SubsetARBF":
+            return K.SubsetARBF([3, 1], order=2, length_scale=ell, scale=env.arr("s", (3,), "pos", hi="8")), D
+        if base == "Poly2f":
+            return K.DiffPolyKernel(gamma=env.par("g", "pos", hi="8"), order=2, factorial=True), 3
     if name.startswith("ARBFV2_"):
         order = int(name[7])
         return K.DiffARBFV2(order=order, length_scale=_ls(env, 3), scale=env.arr("s", (order + 1,), "pos", hi="8")), 3
@@ -100,7 +116,8 @@ def build(env, name):
 
 KERNELS_QUICK = ["RBF", "RBF_iso", "RBF_fixed", "Linear", "Poly2fa", "Poly3ni", "Poly2fax", "ARBF2", "ARBF2L", "ARBF2S", "ARBFV2_2", "AddLLRBF_2", "AddRQ_2",
                  "SubsetRBF", "SubsetRBF_slice", "SubsetARBF", "SubsetPoly", "SpinSymRBF", "SpinSymPoly", "PartialRBF", "PartialRBF_dims", "Antisym",
-                 "Const*RBF", "RBF+RBF", "RBF*Poly", "RBF**2", "White+RBF", "Transform"]
+                 "Const*RBF", "RBF+RBF", "RBF*Poly", "RBF**2", "White+RBF", "Transform",
+                 "ARBF2_iso", "ARBFV2_2_iso", "AddRQ_2_iso", "AddLLRBF_2_iso", "SubsetARBF_iso", "Poly2f_iso"]
 KERNELS_THOROUGH = KERNELS_QUICK + ["Poly3fa", "Poly2ni", "Poly3na", "ARBF1", "ARBF3", "ARBFV2_1", "AddLLRBF_1", "AddRQ_1", "SpinSymARBF", "(RBF+c)**3"]
 
 
